@@ -21,3 +21,4 @@ def run(col, configs, tier):
         guarded(col, X.rule_slice_contiguity, facts)
         guarded(col, S.rule_end_of_buffer_neutral, facts)
         guarded(col, S.rule_lookaround_kind, facts)
+        guarded(col, S.rule_skip_zeros_unit, facts)
